@@ -83,6 +83,11 @@ def run(res, tier):
     bad = []; evals = 0; dist = {}; samples = []
     for cid in range(n):
         ns, nu, X = gen_data(rng)
+        if cid % 4 == 3:
+            # whole-number data handed over as an integer-typed matrix (the fit depends on the values only)
+            X = np.round(4 * X)
+            X[:, 0] = np.round(X[:, 0] / 4)
+            X = X.astype(np.int64)
         k = ns + nu
         cfgs = []
         for mode in ('projected', 'exact'):
